@@ -276,6 +276,8 @@ pub enum MOp {
     UnregSig(i32),
     /// register a forbidden signal (panics), caught by the harness
     RegForbidden,
+    /// an unchecked registration the OS refuses (SIGKILL: its disposition can be read, not changed)
+    RegRefused,
 }
 
 pub struct RS {
@@ -327,6 +329,11 @@ fn run_mops(s: &RS, ops: &[MOp], pause: bool) {
                 sched::log("regforbidden_call", 0, 0);
                 let r = std::panic::catch_unwind(|| unsafe { reg::register(libc::SIGKILL, || ()) });
                 sched::log("regforbidden_ret", r.is_err() as u64, 0);
+            }
+            MOp::RegRefused => {
+                sched::log("regrefused_call", 0, 0);
+                let r = unsafe { reg::register_unchecked(libc::SIGKILL, |_| ()) };
+                sched::log("regrefused_ret", r.is_err() as u64, 0);
             }
         }
     }
@@ -1172,6 +1179,10 @@ pub fn scenarios(prop: &str, tier: Tier) -> Vec<Item> {
             p.deliverers = vec![vec![S1]];
             v.push(item(build_reg(p), b(2, 3), "unregister_signal on one thread vs a first registration of another signal on another (both half-locks' writer mutexes in play)"));
             v.push(item(build_iter_live("live_iterator_add_drop_vs_register"), b(2, 3), "iterator add_signal (after a rejected, panicking one) and drop on one thread vs register/unregister/unregister_signal on another + deliveries + nested arrival"));
+            let mut p = rp("live_refused_registration", "C18");
+            p.mutators = vec![vec![RegRefused, Reg(S1, 2), RegRefused], vec![Reg(S2, 5), Unreg(5)]];
+            p.deliverers = vec![vec![S1]];
+            v.push(item(build_reg(p), b(2, 3), "an unchecked registration the OS refuses (error path of a first registration), before and after a successful one, vs another mutator and a delivery"));
             let mut p = rp("live_same_signal", "C18");
             p.mutators = vec![vec![Reg(S1, 1), UnregSig(S1)], vec![Reg(S1, 5), Unreg(5)]];
             p.deliverers = vec![vec![S1], vec![S1]];
